@@ -14,6 +14,9 @@ Decided:
              serialize_with: serde walks a hash collection in RandomState order, so the bytes differ from run to run.
              (Derive lists and helper attributes are read from the struct's source text: macro expansion removes them
              from the HIR.) Types with hand-written writers are accepted - their writer decides the order.
+  ORDER-C23c no loop driven by the iteration of a RandomState collection (HashMap/HashSet iterators) writes to the memory
+             file or assigns file positions (Frame.payload_offset / *.bytes_offset): the iteration order differs between
+             two runs of the same calls, and with it the layout of the file.
 Not decided: byte identity itself (runtime), the logical-state half of the property."""
 import os, re
 from . import lib, extract
@@ -130,6 +133,39 @@ def run(ctx):
             if c.is_(('Uuid::new_v4',)):
                 ctx.evaluations += 1
                 ctx.candidate('FLOW-C23a', f, 'Uuid::new_v4() (random) is used here; whether it reaches persisted bytes under explicit inputs was not reproduced', line=c.line, detail='uuid-v4')
+    # ---- c
+    ctx.rule('ORDER-C23c', 'no file write / file-position assignment inside a loop driven by HashMap/HashSet iteration')
+    from . import effects, monotone
+    hash_it = re.compile(r'(hash_map|hash_set|hash::map|hash::set)::(Iter|IntoIter|Keys|Values|ValuesMut|IterMut|Drain|IntoKeys|IntoValues)')
+    n_loops = 0
+    for f in sorted(F.fns.values(), key=lambda x: x.path):
+        if f.r.get('derive'):
+            continue
+        nexts = [c for c in f.calls() if c.name == 'next' and c.args and op_place(c.args[0]) is not None]
+        loops = None
+        for c in nexts:
+            rp = op_place(c.args[0])
+            tys = ' '.join(f.local_ty(l) for l in (lib.root_of(f, rp.l) | {rp.l}))
+            if not hash_it.search(tys):
+                continue
+            n_loops += 1
+            ctx.evaluations += 1
+            if loops is None:
+                loops = monotone.natural_loops(f)
+            body = set()
+            for h, b in loops.items():
+                if c.bb in b and (not body or len(b) < len(body)):
+                    body = b
+            ws = [x for x in f.calls() if x.bb in body and (effects.file_effect(f, x) or (None, None))[0] == 'W' and effects.file_effect(f, x)[1] in ('M', 'P')]
+            pos = [st for st in lib.field_stores(f) if st['bb'] in body and st['lhs'].field_owners() and st['lhs'].field_owners()[-1][1] in ('payload_offset', 'bytes_offset', 'segment_offset')]
+            ctx.touch(f, len(body))
+            if ws or pos:
+                what = ws[0].key if ws else '%s.%s' % pos[0]['lhs'].field_owners()[-1]
+                ctx.bad('ORDER-C23c', f, 'a loop over a HashMap/HashSet iterator writes the memory file / assigns file positions (%s): the layout follows the RandomState iteration order and '
+                        'differs between two runs of the same calls' % what, line=(ws[0].line if ws else pos[0]['line']), sink=what, detail='file-layout-in-hash-order')
+            else:
+                ctx.ok('ORDER-C23c', f, 'loop over a hash collection neither writes the file nor assigns file positions', line=c.line)
+    ctx.floor('ORDER-C23c', n_loops, 3, 'loops driven by HashMap/HashSet iteration')
     # ---- b
     seen = set()
     todo = [a for n in ROOT_TYPES for a in F.adts_by_name.get(n, [])]
